@@ -1174,6 +1174,14 @@ Section Agree.
     rewrite <- (eval_factor_same (ra_F acc)); [reflexivity|].
     apply (E2 acc eq_refl). cbn [ra_F]. intros k [x Hx]. rewrite lookup_empty in Hx. discriminate.
   Qed.
+
+  (** the dimensionality of any container over the closed list, dimension names included *)
+  Theorem dim_of_same (a : uc) : (∀ k, is_Some (a !! k) → k ∈ l) → dim_of r a = dim_of r' a.
+  Proof.
+    intros H. unfold dim_of. change (reg_fuel r') with (reg_fuel r).
+    rewrite <- (dim_rec_same (reg_fuel r) (map_to_list a) 1%Qc ∅); [reflexivity|].
+    intros [k v] Hkv. apply elem_of_map_to_list in Hkv. apply H. cbn [fst]. eauto.
+  Qed.
 End Agree.
 
 (** * Order independence *)
@@ -1196,6 +1204,15 @@ Proof.
   intros Hp Hperm Hacts Hnr Hr Hcl Hn.
   destruct (elab_perm_tables ds ds' acts r Hp Hperm Hacts Hnr Hr) as (r' & Hr' & Hst).
   exists r'. split; [exact Hr'|]. apply (meaning_same r r' l Hst Hcl n Hn).
+Qed.
+Theorem dimensionality_order_independent ds ds' acts r l (a : uc) :
+  forallb plain ds = true → ds ≡ₚ ds' → mapR pre ds = Ok acts → no_redefinition acts →
+  elab ds = Ok r → closed_b r l = true → (∀ k, is_Some (a !! k) → k ∈ l) →
+  ∃ r', elab ds' = Ok r' ∧ dim_of r a = dim_of r' a.
+Proof.
+  intros Hp Hperm Hacts Hnr Hr Hcl Ha.
+  destruct (elab_perm_tables ds ds' acts r Hp Hperm Hacts Hnr Hr) as (r' & Hr' & Hst).
+  exists r'. split; [exact Hr'|]. apply (dim_of_same r r' l Hst Hcl a Ha).
 Qed.
 (** an ill-formed list is ill-formed in every order *)
 Theorem elab_perm_err ds ds' e : forallb plain ds = true → ds ≡ₚ ds' → elab ds = Err e → ∃ e', elab ds' = Err e'.
